@@ -484,7 +484,7 @@ def show_case(case):
                 out.append("hex:" + a.hex()[:800])
         else:
             out.append(str(a))
-    return {"op": op, "args": out, "hexargs": [(a if isinstance(a, bytes) else str(a).encode()).hex()[:4000] for a in args]}
+    return {"op": op, "args": out, "hexargs": [(a if isinstance(a, bytes) else str(a).encode()).hex()[:400000] for a in args]}
 
 
 def case_from_replay(d):
